@@ -18,6 +18,15 @@ import (
 
 const VerifRoot = "/verif"
 
+// OutRoot is where evidence, replays and run directories go: /verif, or $VERIF_OUT when a scratch copy of the
+// repository is being checked (mutation runs) so that parallel runs do not overwrite each other's files.
+func OutRoot() string {
+	if o := os.Getenv("VERIF_OUT"); o != "" {
+		return o
+	}
+	return VerifRoot
+}
+
 // Finding is one entry of known_findings.json.
 type Finding struct {
 	ID       string `json:"id"`
@@ -134,7 +143,7 @@ func RunCheck(o CheckOpts) int {
 	if p.Serial {
 		nw = 1
 	}
-	runDir := filepath.Join(VerifRoot, ".build", "run", o.Prop+"-"+o.Tier)
+	runDir := filepath.Join(OutRoot(), ".build", "run", o.Prop+"-"+o.Tier)
 	os.RemoveAll(runDir)
 	os.MkdirAll(runDir, 0o755)
 	if p.Race {
@@ -392,7 +401,7 @@ func replayArgs(exe string, v *Violation, sel []string) bool {
 }
 
 func writeReplay(v *Violation) string {
-	dir := filepath.Join(VerifRoot, "replays", v.Property)
+	dir := filepath.Join(OutRoot(), "replays", v.Property)
 	os.MkdirAll(dir, 0o755)
 	h := sha1.Sum([]byte(v.Class()))
 	path := filepath.Join(dir, fmt.Sprintf("%x.json", h[:6]))
@@ -493,6 +502,6 @@ func writeEvidence(p *Property, o CheckOpts, r *Result, planned, nviol, nknown i
 		"violations":  nviol,
 	}
 	b, _ := json.MarshalIndent(ev, "", " ")
-	os.MkdirAll(filepath.Join(VerifRoot, "evidence"), 0o755)
-	os.WriteFile(filepath.Join(VerifRoot, "evidence", p.ID+".json"), b, 0o644)
+	os.MkdirAll(filepath.Join(OutRoot(), "evidence"), 0o755)
+	os.WriteFile(filepath.Join(OutRoot(), "evidence", p.ID+".json"), b, 0o644)
 }
